@@ -61,7 +61,14 @@ func LoadAsFormat(data []byte, format uint8, t interface{}) (err error) {
 		}
 		return nil
 	case MsgPack:
-		err = msgpack.Unmarshal(data, t)
+		// Walk the encoded value first. msgpack allocates the element count
+		// that an array or map header claims when decoding into an
+		// interface{}; a header that claims more elements than there is data
+		// fails here without allocating.
+		err = msgpack.NewDecoder(bytes.NewReader(data)).Skip()
+		if err == nil {
+			err = msgpack.Unmarshal(data, t)
+		}
 		if err != nil {
 			return fmt.Errorf("dsd: failed to unpack msgpack: %w, data: %s", err, utils.SafeFirst16Bytes(data))
 		}
